@@ -22,9 +22,13 @@ CONSTANTS MinN, MaxN,  \* model checking: all labelled graphs on MinN..MaxN atom
           PatPool,     \* patterns offered to Match in the model
           Kinds,       \* which queries the model explores: subset of {"bfs","ring","local","match","defs"}
           DeclLimit,   \* Emb uses the declarative definition while n^pn <= DeclLimit
+          MaxEdits,    \* model checking: in-place edits of the graph between queries (histories on one object)
           Deviations   \* named wrong behaviours (non-vacuity)
-VARIABLES g,        \* the graph [n |-> Nat, el |-> Seq(STRING), bonds |-> Seq([a, b, o2])]
+VARIABLES g,        \* the graph [n |-> Nat, el |-> Seq(STRING), bonds |-> Seq([a, b, o2])] AS IT IS NOW (edits update it)
           adj,      \* cache: atom -> set of neighbours (= AdjOf(g))
+          pat,      \* the pattern object of a history (trace validation), edited in place as well
+          memo,     \* implementation: the graph as converted by an earlier query (only deviations ever reuse it)
+          edits,    \* model checking: number of edits so far
           cur,      \* running query [kind, s, d]
           tgt,      \* atom -> distance REQUIRED for the running traversal
           seen,     \* atoms yielded so far
@@ -36,8 +40,9 @@ VARIABLES g,        \* the graph [n |-> Nat, el |-> Seq(STRING), bonds |-> Seq([
           visited,  \* implementation: the visited set
           res,      \* result of the finished query
           last      \* observation: latest action (never in the fingerprint)
-vars == <<g, adj, cur, tgt, seen, lastk, viol, phase, cursor, queue, visited, res, last>>
-sv   == <<g, adj, cur, tgt, seen, lastk, viol, phase, cursor, queue, visited, res>>
+static == <<g, adj, pat, memo, edits>>
+vars == <<g, adj, pat, memo, edits, cur, tgt, seen, lastk, viol, phase, cursor, queue, visited, res, last>>
+sv   == <<g, adj, pat, memo, edits, cur, tgt, seen, lastk, viol, phase, cursor, queue, visited, res>>
 
 (* ======================= Part 1: definitions ============================== *)
 Nodes(G)        == 1..G.n
@@ -136,27 +141,71 @@ CheckYield(T, sn, lk, a, k) ==
 
 IdleVars == /\ cur = NoQuery /\ tgt = NoMap /\ seen = {} /\ lastk = 0 /\ viol = {} /\ phase = "idle"
             /\ cursor = NoCursor /\ queue = <<>> /\ visited = {} /\ res = "none"
-InitWith(G) == /\ g = G /\ adj = AdjOf(G) /\ IdleVars /\ last = [act |-> "init"]
+InitWith(G) == /\ g = G /\ adj = AdjOf(G) /\ pat = NoGraph /\ memo = NoGraph /\ edits = 0 /\ IdleVars /\ last = [act |-> "init"]
 BackToIdle == /\ cur' = NoQuery /\ tgt' = NoMap /\ seen' = {} /\ lastk' = 0 /\ viol' = {} /\ phase' = "idle"
               /\ cursor' = NoCursor /\ queue' = <<>> /\ visited' = {} /\ res' = "none"
 ImplIdle == UNCHANGED <<cursor, queue, visited>>
 
 (* guards are written `X = TRUE` so that TLC evaluates them as values (a bounded quantifier that is *)
 (* a conjunct of an action is unfolded on the Java stack, one frame per element)                   *)
-AbsLoad(G) == /\ Simple(G) = TRUE /\ g' = G /\ adj' = AdjOf(G) /\ BackToIdle /\ last' = [act |-> "graph"]
+AbsLoad(G) == /\ Simple(G) = TRUE /\ g' = G /\ adj' = AdjOf(G) /\ pat' = NoGraph /\ UNCHANGED <<memo, edits>>
+              /\ BackToIdle /\ last' = [act |-> "graph"]
+
+(* ----- histories on one object: in-place edits between queries.  Every query after an edit is       *)
+(* decided on the edited graph.  The bond LIST order and the orientation of a bond after an edit are  *)
+(* free; atoms keep their relative order (positions above a deleted atom move down by one).           *)
+EdgeSet(G) == {[e |-> Ends(G, i), o2 |-> G.bonds[i].o2] : i \in 1..NB(G)}
+SameConstitution(G, H) == G.n = H.n /\ G.el = H.el /\ EdgeSet(G) = EdgeSet(H) /\ NB(G) = NB(H)
+Relabel(G, a, e)     == [G EXCEPT !.el[a] = e]                               \* atom.element = e
+Rebond(G, i, o2)     == [G EXCEPT !.bonds[i].o2 = o2]                        \* bond.btype = t (only its order is in g)
+AddEdge(G, a, b, o2) == [G EXCEPT !.bonds = Append(@, [a |-> a, b |-> b, o2 |-> o2])]
+DelEdge(G, i)        == [G EXCEPT !.bonds = SubSeq(@, 1, i - 1) \o SubSeq(@, i + 1, Len(@))]
+AddAtom(G, e)        == [G EXCEPT !.n = @ + 1, !.el = Append(@, e)]
+DelAtom(G, a)        == LET ren(x) == IF x > a THEN x - 1 ELSE x
+                            keep   == SelectSeq(G.bonds, LAMBDA b : b.a # a /\ b.b # a)
+                        IN [n |-> G.n - 1, el |-> SubSeq(G.el, 1, a - 1) \o SubSeq(G.el, a + 1, G.n),
+                            bonds |-> [i \in 1..Len(keep) |-> [a |-> ren(keep[i].a), b |-> ren(keep[i].b), o2 |-> keep[i].o2]]]
+EditOK(G, op) ==
+  CASE op.op = "relabel" -> op.a \in Nodes(G)
+    [] op.op = "label"   -> op.a \in Nodes(G)                                \* atom.label = ..: not part of the graph
+    [] op.op = "rebond"  -> op.i \in 1..NB(G)
+    [] op.op = "connect" -> op.a \in Nodes(G) /\ op.b \in Nodes(G) /\ op.a # op.b /\ op.b \notin NbrsOf(G, op.a)
+    [] op.op = "delbond" -> op.i \in 1..NB(G)
+    [] op.op = "addatom" -> TRUE
+    [] op.op = "delatom" -> op.a \in Nodes(G)
+    [] OTHER -> FALSE
+Edited(G, op) ==
+  CASE op.op = "relabel" -> Relabel(G, op.a, op.e)
+    [] op.op = "label"   -> G
+    [] op.op = "rebond"  -> Rebond(G, op.i, op.o2)
+    [] op.op = "connect" -> AddEdge(G, op.a, op.b, op.o2)
+    [] op.op = "delbond" -> DelEdge(G, op.i)
+    [] op.op = "addatom" -> AddAtom(G, op.e)
+    [] op.op = "delatom" -> DelAtom(G, op.a)
+(* H = the graph the object shows through atoms / bonds after the edit: it must be the edited graph *)
+AbsEdit(op, H) ==
+  /\ phase = "idle" /\ EditOK(g, op) = TRUE
+  /\ (Simple(H) /\ SameConstitution(Edited(g, op), H)) = TRUE
+  /\ g' = H /\ adj' = AdjOf(H) /\ UNCHANGED <<pat, memo, edits>> /\ BackToIdle /\ last' = [act |-> "edit", op |-> op.op]
+AbsPattern(P) ==
+  /\ phase = "idle" /\ (Simple(P) /\ P.n >= 1) = TRUE
+  /\ pat' = P /\ UNCHANGED <<g, adj, memo, edits>> /\ BackToIdle /\ last' = [act |-> "pattern"]
+AbsPatEdit(op) ==                                                           \* relabel / label / rebond of the pattern
+  /\ phase = "idle" /\ op.op \in {"relabel", "label", "rebond"} /\ EditOK(pat, op) = TRUE
+  /\ pat' = Edited(pat, op) /\ UNCHANGED <<g, adj, memo, edits>> /\ BackToIdle /\ last' = [act |-> "pedit", op |-> op.op]
 
 AbsBegin(s, d) ==
   /\ phase = "idle" /\ s \in Nodes(g) /\ (d = 0 \/ d \in adj[s])
   /\ cur' = [kind |-> "bfs", s |-> s, d |-> d] /\ tgt' = Target(adj, s, d)
   /\ seen' = {} /\ lastk' = 0 /\ phase' = "run"
-  /\ UNCHANGED <<g, adj, viol, res>> /\ ImplIdle /\ last' = [act |-> "begin", s |-> s, d |-> d]
+  /\ UNCHANGED <<static, viol, res>> /\ ImplIdle /\ last' = [act |-> "begin", s |-> s, d |-> d]
 AbsYield(a, k) ==
   /\ phase = "run" /\ CheckYield(tgt, seen, lastk, a, k) = {}
   /\ seen' = seen \cup {a} /\ lastk' = k
-  /\ UNCHANGED <<g, adj, cur, tgt, viol, phase, res>> /\ ImplIdle /\ last' = [act |-> "yield", a |-> a, k |-> k]
+  /\ UNCHANGED <<static, cur, tgt, viol, phase, res>> /\ ImplIdle /\ last' = [act |-> "yield", a |-> a, k |-> k]
 AbsEnd ==
   /\ phase = "run" /\ seen = DOMAIN tgt                                  \* none missed
-  /\ BackToIdle /\ UNCHANGED <<g, adj>> /\ last' = [act |-> "end"]
+  /\ BackToIdle /\ UNCHANGED <<static>> /\ last' = [act |-> "end"]
 AbsRing(i, r) ==
   /\ phase = "idle" /\ i \in 1..NB(g)
   /\ r = ~Bridge(adj, g.bonds[i].a, g.bonds[i].b)
@@ -183,6 +232,11 @@ AbsMatch(P, maps, mode, must) ==
   /\ phase = "idle" /\ MatchOK(P, maps, mode, must) = TRUE
   /\ UNCHANGED sv /\ last' = [act |-> "match", mode |-> mode]
 
+AbsMatchP(pel, maps, mode) ==                                  \* match against the pattern object of the history
+  /\ phase = "idle" /\ pat.n >= 1 /\ pel = pat.el             \* the pattern object shows the edited elements
+  /\ MatchOK(pat, maps, mode, <<>>) = TRUE
+  /\ UNCHANGED sv /\ last' = [act |-> "matchp", mode |-> mode]
+
 (* ======================= Part 3: implementation-shaped model ============== *)
 Dev(x) == x \in Deviations
 (* all labelled graphs on n atoms: bonds in a canonical order; order byte o2 varies with the pair *)
@@ -200,6 +254,7 @@ Begin(kind, s, d) ==
   /\ phase = "idle" /\ kind \in Kinds \cap {"bfs", "ring"} /\ s \in Nodes(g)
   /\ IF kind = "ring" THEN d \in adj[s] ELSE d = 0 \/ d \in adj[s]
   /\ cur' = [kind |-> kind, s |-> s, d |-> d] /\ tgt' = Target(adj, s, d)
+  /\ memo' = (IF Dev("StaleAdjacency") /\ memo.n = g.n THEN memo ELSE g)    \* the adjacency this traversal walks on
   /\ visited' = (IF Dev("StartNotVisited") THEN {} ELSE {s})
                   \cup (IF d = 0 \/ Dev("DirectionNotExcluded") THEN {} ELSE {d})
   /\ cursor' = NoCursor
@@ -210,15 +265,16 @@ Begin(kind, s, d) ==
           /\ viol' = CheckYield(tgt', {}, 0, d, k0)
           /\ IF kind = "ring" /\ d \in Connections(s, d) THEN phase' = "done" /\ res' = TRUE
                                                          ELSE phase' = "run" /\ res' = "none"
-  /\ UNCHANGED <<g, adj>> /\ last' = [act |-> "begin", kind |-> kind, s |-> s, d |-> d]
+  /\ UNCHANGED <<g, adj, pat, edits>> /\ last' = [act |-> "begin", kind |-> kind, s |-> s, d |-> d]
 
-Unvisited == IF cursor.a = 0 THEN {} ELSE adj[cursor.a] \ visited
+WalkAdj(a) == IF Dev("StaleAdjacency") THEN NbrsOf(memo, a) ELSE adj[a]
+Unvisited == IF cursor.a = 0 THEN {} ELSE WalkAdj(cursor.a) \ visited
 (* queue.pop(): the deque is filled with appendleft, so pop() takes the OLDEST entry *)
 Pop ==
   /\ phase = "run" /\ Unvisited = {} /\ queue # <<>>
   /\ IF Dev("LIFO") THEN cursor' = queue[Len(queue)] /\ queue' = SubSeq(queue, 1, Len(queue) - 1)
                     ELSE cursor' = Head(queue) /\ queue' = Tail(queue)
-  /\ UNCHANGED <<g, adj, cur, tgt, seen, lastk, viol, phase, visited, res>> /\ last' = [act |-> "pop"]
+  /\ UNCHANGED <<static, cur, tgt, seen, lastk, viol, phase, visited, res>> /\ last' = [act |-> "pop"]
 (* one iteration of `for a in connected_atoms(start)` that yields; the order of neighbours is the bond order: free *)
 Yield(v) ==
   /\ phase = "run" /\ v \in Unvisited
@@ -229,11 +285,11 @@ Yield(v) ==
      /\ IF cur.kind = "ring" /\ v \in Connections(cur.s, cur.d) THEN phase' = "done" /\ res' = TRUE
                                                                  ELSE UNCHANGED <<phase, res>>
      /\ last' = [act |-> "yield", a |-> v, k |-> k]
-  /\ UNCHANGED <<g, adj, cur, tgt, cursor>>
+  /\ UNCHANGED <<static, cur, tgt, cursor>>
 End ==
   /\ phase = "run" /\ Unvisited = {} /\ queue = <<>>
   /\ phase' = "done" /\ res' = IF cur.kind = "ring" THEN FALSE ELSE "none"
-  /\ UNCHANGED <<g, adj, cur, tgt, seen, lastk, viol, cursor, queue, visited>> /\ last' = [act |-> "end"]
+  /\ UNCHANGED <<static, cur, tgt, seen, lastk, viol, cursor, queue, visited>> /\ last' = [act |-> "end"]
 
 (* bonds_with_atom / connected_atoms / bonded_valence: one scan of the bond LIST *)
 RECURSIVE Scan(_, _, _)
@@ -247,11 +303,17 @@ Scan(G, a, i) == IF i > NB(G) THEN [nbrs |-> <<>>, bonds |-> <<>>, v2 |-> 0]
 Local(a) ==
   /\ phase = "idle" /\ "local" \in Kinds /\ a \in Nodes(g)
   /\ cur' = [kind |-> "local", s |-> a, d |-> 0] /\ res' = Scan(g, a, 1) /\ phase' = "done"
-  /\ UNCHANGED <<g, adj, tgt, seen, lastk, viol, cursor, queue, visited>> /\ last' = [act |-> "local", a |-> a]
+  /\ UNCHANGED <<static, tgt, seen, lastk, viol, cursor, queue, visited>> /\ last' = [act |-> "local", a |-> a]
 Match(P) ==
   /\ phase = "idle" /\ "match" \in Kinds
-  /\ cur' = [kind |-> "match", s |-> P, d |-> 0] /\ res' = EmbRec(P, AdjOf(P), g, adj) /\ phase' = "done"
-  /\ UNCHANGED <<g, adj, tgt, seen, lastk, viol, cursor, queue, visited>> /\ last' = [act |-> "match"]
+  (* to_nxgraph(): with the deviation the converted graph is reused while atoms and bonds look the same, *)
+  (* so that elements edited in place are stale                                                           *)
+  /\ LET GM == IF Dev("StaleAttributes") /\ memo.n = g.n /\ {Ends(memo, i) : i \in 1..NB(memo)} = {Ends(g, i) : i \in 1..NB(g)}
+                 THEN memo ELSE g IN
+     /\ memo' = GM
+     /\ res' = EmbRec(P, AdjOf(P), GM, AdjOf(GM))
+  /\ cur' = [kind |-> "match", s |-> P, d |-> 0] /\ phase' = "done"
+  /\ UNCHANGED <<g, adj, pat, edits, tgt, seen, lastk, viol, cursor, queue, visited>> /\ last' = [act |-> "match"]
 
 DefsHold ==
   /\ adj = AdjOf(g) /\ Simple(g)
@@ -260,12 +322,19 @@ DefsHold ==
 Defs ==
   /\ phase = "idle" /\ "defs" \in Kinds
   /\ cur' = [kind |-> "defs", s |-> 0, d |-> 0] /\ res' = DefsHold /\ phase' = "done"
-  /\ UNCHANGED <<g, adj, tgt, seen, lastk, viol, cursor, queue, visited>> /\ last' = [act |-> "defs"]
+  /\ UNCHANGED <<static, tgt, seen, lastk, viol, cursor, queue, visited>> /\ last' = [act |-> "defs"]
+(* an in-place edit between two queries on the same object *)
+EditTo(G) ==
+  /\ edits < MaxEdits /\ phase \in {"idle", "done"}
+  /\ g' = G /\ adj' = AdjOf(G) /\ edits' = edits + 1 /\ UNCHANGED <<pat, memo>> /\ BackToIdle /\ last' = [act |-> "edit"]
+BondAt(a, b) == CHOOSE i \in 1..NB(g) : Ends(g, i) = {a, b}
+DoEdit == \/ \E a \in Nodes(g), e \in Elems : e # g.el[a] /\ EditTo(Relabel(g, a, e))
+          \/ \E a, b \in Nodes(g) : a < b /\ EditTo(IF b \in adj[a] THEN DelEdge(g, BondAt(a, b)) ELSE AddEdge(g, a, b, 2))
 DoBegin == \E kind \in {"bfs", "ring"}, s \in Nodes(g), d \in 0..g.n : Begin(kind, s, d)
 DoYield == \E v \in Nodes(g) : Yield(v)
 DoLocal == \E a \in Nodes(g) : Local(a)
 DoMatch == \E P \in PatPool : Match(P)
-Next == DoBegin \/ Pop \/ DoYield \/ End \/ DoLocal \/ DoMatch \/ Defs
+Next == DoBegin \/ Pop \/ DoYield \/ End \/ DoLocal \/ DoMatch \/ Defs \/ DoEdit
 Spec == Init /\ [][Next]_vars
 
 (* ----- the clauses of C15 -------------------------------------------------- *)
